@@ -40,10 +40,12 @@ const clusterRule = "cluster runs: 1..3 real F3 nodes over an in-process libp2p 
 	"Oracle on the certificates the nodes stored through their own decision path: every node's chain validates from the initial table under the reference validator and the production one; all nodes hold the same certificate per instance; each certificate starts at the previous head (the bootstrap tipset first), runs along parent links of the EC model's chain, carries the delta between the node-rule committees of its instance and the next and commits to the latter's CID; a node that reported a decision (instance terminated) holds the certificate; an observer peer never sees two differently signed messages for one (instance, sender, round, step). "
 
 type clusterNode struct {
-	id    gpbft.ActorID
-	f3    *f3.F3
-	dir   string
-	errMu sync.Mutex
+	id     gpbft.ActorID
+	f3     *f3.F3
+	dir    string
+	ds     *vds.Store
+	ctx    context.Context
+	cancel context.CancelFunc
 }
 
 func runCluster(t *rapid.T, prop string, root string) {
@@ -91,7 +93,7 @@ func runCluster(t *rapid.T, prop string, root string) {
 	epoch := int64(0)
 	tableChanges := 0
 	for i := 0; i < 400; i++ {
-		if i > 0 && rapid.IntRange(0, 11).Draw(t, "tablechange") == 0 {
+		if i > 0 && rapid.IntRange(0, map[bool]int{true: 3, false: 15}[i < 40]).Draw(t, "tablechange") == 0 {
 			// re-weight a running member upwards or add a small non-running member: the running
 			// nodes keep a strong quorum
 			nt := vref.CloneEntries(table)
@@ -151,23 +153,21 @@ func runCluster(t *rapid.T, prop string, root string) {
 	}()
 	var nodes []*clusterNode
 	var wg sync.WaitGroup
-	for i := 0; i < n; i++ {
-		ps, err := pubsub.NewGossipSub(ctx, hs[i])
+	boot1 := func(nd *clusterNode, i int) {
+		ps, err := pubsub.NewGossipSub(nd.ctx, hs[i])
 		if err != nil {
 			t.Fatalf("HARNESS: gossipsub: %v", err)
 		}
-		nd := &clusterNode{id: gpbft.ActorID(i + 1), dir: filepath.Join(dir, fmt.Sprintf("node%d", i))}
-		nd.f3, err = f3.New(ctx, m, vds.New(), hs[i], ps, vcrypto.Scheme{}, ecm, nd.dir)
+		nd.f3, err = f3.New(nd.ctx, m, nd.ds, hs[i], ps, vcrypto.Scheme{}, ecm, nd.dir)
 		if err != nil {
 			t.Fatalf("HARNESS: f3.New: %v", err)
 		}
-		nodes = append(nodes, nd)
 		wg.Add(1)
-		go func(nd *clusterNode) {
+		go func(mod *f3.F3, nctx context.Context) {
 			defer wg.Done()
 			for {
 				select {
-				case mb, ok := <-nd.f3.MessagesToSign():
+				case mb, ok := <-mod.MessagesToSign():
 					if !ok {
 						return
 					}
@@ -175,16 +175,22 @@ func runCluster(t *rapid.T, prop string, root string) {
 					if err != nil {
 						continue
 					}
-					sig, vrf, err := sb.Sign(ctx, vcrypto.Scheme{})
+					sig, vrf, err := sb.Sign(nctx, vcrypto.Scheme{})
 					if err != nil {
 						continue
 					}
-					nd.f3.Broadcast(ctx, sb, sig, vrf)
-				case <-ctx.Done():
+					mod.Broadcast(nctx, sb, sig, vrf)
+				case <-nctx.Done():
 					return
 				}
 			}
-		}(nd)
+		}(nd.f3, nd.ctx)
+	}
+	for i := 0; i < n; i++ {
+		nd := &clusterNode{id: gpbft.ActorID(i + 1), dir: filepath.Join(dir, fmt.Sprintf("node%d", i)), ds: vds.New()}
+		nd.ctx, nd.cancel = context.WithCancel(ctx)
+		nodes = append(nodes, nd)
+		boot1(nd, i)
 	}
 	if err := mn.LinkAll(); err != nil {
 		t.Fatalf("HARNESS: link: %v", err)
@@ -193,7 +199,7 @@ func runCluster(t *rapid.T, prop string, root string) {
 		t.Fatalf("HARNESS: connect: %v", err)
 	}
 	for _, nd := range nodes {
-		if err := nd.f3.Start(ctx); err != nil {
+		if err := nd.f3.Start(nd.ctx); err != nil {
 			vev.Fail(t, prop, prop+"/cluster/start-failed", "node %d: Start failed: %v", nd.id, err)
 		}
 	}
@@ -210,6 +216,10 @@ func runCluster(t *rapid.T, prop string, root string) {
 	step := time.Duration(rapid.SampledFrom([]int{100, 250, 1000}).Draw(t, "clockstep_ms")) * time.Millisecond
 	deadline := time.Now().Add(time.Duration(vev.IntEnv("VERIF_CLUSTER_BUDGET_S", map[bool]int{true: 120, false: 40}[vev.Thorough()])) * time.Second)
 	reached := false
+	restartNode, restarted := -1, false
+	if rapid.IntRange(0, 2).Draw(t, "restart") == 0 {
+		restartNode = rapid.IntRange(0, n-1).Draw(t, "restartnode")
+	}
 	for time.Now().Before(deadline) {
 		all := true
 		for _, nd := range nodes {
@@ -220,6 +230,32 @@ func runCluster(t *rapid.T, prop string, root string) {
 		if all {
 			reached = true
 			break
+		}
+		if restartNode >= 0 && !restarted {
+			half := true
+			for _, nd := range nodes {
+				if nd.f3.Progress().ID < m.InitialInstance+target/2 {
+					half = false
+				}
+			}
+			if half {
+				// one node is stopped and a new node is started on its datastore and directory
+				// (needs a new libp2p identity in this in-process network: the host is reused)
+				nd := nodes[restartNode]
+				sctx, c := context.WithTimeout(context.Background(), 20*time.Second)
+				if err := nd.f3.Stop(sctx); err != nil {
+					c()
+					vev.Fail(t, prop, prop+"/cluster/stop-failed", "node %d: Stop failed: %v", nd.id, err)
+				}
+				c()
+				nd.cancel()
+				nd.ctx, nd.cancel = context.WithCancel(ctx)
+				boot1(nd, restartNode)
+				if err := nd.f3.Start(nd.ctx); err != nil {
+					vev.Fail(t, prop, prop+"/cluster/start-failed", "node %d: Start after a restart failed: %v", nd.id, err)
+				}
+				restarted = true
+			}
 		}
 		clk.Add(step)
 		time.Sleep(2 * time.Millisecond)
@@ -273,8 +309,11 @@ func runCluster(t *rapid.T, prop string, root string) {
 		// same certificate per instance on every node
 		for k := range stored {
 			for x := 0; x < len(cs) && x < len(stored[k]); x++ {
-				if !bytes.Equal(certBytes(cs[x]), certBytes(stored[k][x])) {
-					vev.Fail(t, prop, prop+"/cluster/nodes-disagree", "nodes %d and %d hold different certificates for instance %d", nodes[i].id, nodes[k].id, cs[x].GPBFTInstance)
+				// the signer set and aggregate may differ (each node aggregates the DECIDE votes it
+				// saw); what is finalized, committed to and the table delta may not
+				a, b := cs[x], stored[k][x]
+				if a.GPBFTInstance != b.GPBFTInstance || !vref.ChainEq(a.ECChain, b.ECChain) || !a.SupplementalData.Eq(&b.SupplementalData) || !vref.DiffEq(a.PowerTableDelta, b.PowerTableDelta) {
+					vev.Fail(t, prop, prop+"/cluster/nodes-disagree", "nodes %d and %d hold certificates for instance %d that finalize different chains (or differ in supplemental data / delta)", nodes[i].id, nodes[k].id, cs[x].GPBFTInstance)
 				}
 			}
 		}
@@ -338,7 +377,7 @@ func runCluster(t *rapid.T, prop string, root string) {
 		total += len(stored[i])
 	}
 	vev.Case(prop, vev.Digest("cluster", prop, n, m.InitialInstance, m.BootstrapEpoch, m.EC.Finality, m.CommitteeLookback, target, tableChanges, step, total), total >= 2,
-		"cluster", fmt.Sprintf("cluster-nodes:%d", n), fmt.Sprintf("cluster-reached-target:%v", reached), fmt.Sprintf("cluster-nonempty-delta:%v", deltas > 0), fmt.Sprintf("cluster-observed-messages>0:%v", npub > 0),
+		"cluster", fmt.Sprintf("cluster-nodes:%d", n), fmt.Sprintf("cluster-reached-target:%v", reached), fmt.Sprintf("cluster-node-restarted:%v", restarted), fmt.Sprintf("cluster-nonempty-delta:%v", deltas > 0), fmt.Sprintf("cluster-observed-messages>0:%v", npub > 0),
 		fmt.Sprintf("cluster-certificates-per-node:%d", min(total/max(1, n), 6)))
 	vev.Sample(prop, func() any {
 		return map[string]any{"kind": "cluster", "nodes": n, "initial_instance": m.InitialInstance, "bootstrap_epoch": m.BootstrapEpoch, "finality": m.EC.Finality, "committee_lookback": m.CommitteeLookback, "target_instances": target, "reached": reached, "certificates_stored_total": total, "certificates_with_delta": deltas, "messages_observed": npub}
